@@ -1,13 +1,11 @@
-SPECIFICATION TSpec
+SPECIFICATION SSpec
 CONSTANTS
   MaxLen = 0
   Classes = {"idn"}
   MaxPend = 1
-  Threads = {"req", "upd"}
+  Threads = {"req", "upd", "log"}
   UseLock = TRUE
-  CheckRunning = TRUE
-CONSTRAINT Track
+  CheckRunning = FALSE
 INVARIANT LinesWhole
 INVARIANT NoGlue
-POSTCONDITION Verdicts
 CHECK_DEADLOCK FALSE
